@@ -64,6 +64,8 @@ def run(ctx):
             if c.get("calls_short") is not None:
                 h = c["horizon"]
                 cases.append((f"run over the whole horizon ({h} steps) on the shorter recorded episode", c["calls_short"], range(h), range(h), 1))
+            if c.get("calls_oob") is not None:
+                cases.append((f"run x {nrun} after init(starting_eps = max_eps + 1), i.e. the last compiled episode", c["calls_oob"], range(nrun), range(nrun), c["last_eps"]))
             for label, calls, parts, sparts, e_ in cases:
                 res.evaluations += 1
                 res.count("ragged_episode_runs")
